@@ -110,7 +110,11 @@ def dds_hash(x: Any) -> PyHash:
         if isinstance(elt, float):
             return _algo_bytes(struct.pack("!d", elt))
         if isinstance(elt, int):
-            return _algo_bytes(struct.pack("!l", elt))
+            if -(2 ** 31) <= elt < 2 ** 31:
+                return _algo_bytes(struct.pack("!l", elt))
+            # Integers that do not fit in 4 bytes: hash their decimal text behind a marker byte
+            # that never starts a UTF-8 string, a packed int or a packed float.
+            return _algo_bytes(b"\xff" + str(elt).encode("utf-8"))
         if isinstance(elt, CanonicalPath):
             return _algo_str(repr(elt))
         if isinstance(elt, list):
